@@ -95,7 +95,7 @@ def _ref_wrap(c):
         return {'ret': NZ}
     cert, full = r
     return {'ret': 0, 'cert': cert, 'len_query': len(cert), 'len': len(cert), 'cvc': cvc_bytes(full)}
-reg(Composite('btokCVCWrap', _impl_wrap, _ref_wrap, group='tok', secrets=('privkey',))).faultable = True
+reg(Composite('btok.CVCWrap', _impl_wrap, _ref_wrap, group='tok', secrets=('privkey',))).faultable = True
 
 def _impl_unwrap(lib, c, A, fill):
     cvc = A.buf(CVC_SIZE, fill); cert = A.buf(c['cert'])
@@ -112,7 +112,7 @@ def _ref_unwrap(c):
     if st != 'OK':
         return _err(st)
     return {'ret': 0, 'cvc': cvc_bytes(full)}
-reg(Composite('btokCVCUnwrap', _impl_unwrap, _ref_unwrap, group='tok')).faultable = True
+reg(Composite('btok.CVCUnwrap', _impl_unwrap, _ref_unwrap, group='tok')).faultable = True
 
 def _impl_iss(lib, c, A, fill):
     cvc = A.buf(cvc_bytes(content(c))); certa = A.buf(c['certa']); priv = A.buf(c['privkeya']); ln = A.buf(8, fill)
@@ -131,7 +131,7 @@ def _ref_iss(c):
         return {'ret': NZ}
     cert, full = r
     return {'ret': 0, 'cert': cert, 'len_query': len(cert), 'len': len(cert), 'cvc': cvc_bytes(full)}
-reg(Composite('btokCVCIss', _impl_iss, _ref_iss, group='tok', secrets=('privkeya',))).faultable = True
+reg(Composite('btok.CVCIss', _impl_iss, _ref_iss, group='tok', secrets=('privkeya',))).faultable = True
 
 def _impl_val(lib, c, A, fill):
     d = A.buf(c['date']) if c.get('date') is not None else None
@@ -139,7 +139,7 @@ def _impl_val(lib, c, A, fill):
 def _ref_val(c):
     st = T.cvc_val(c['cert'], c['certa'], c.get('date'))
     return {'ret': 0} if st == 'OK' else _err(st)
-reg(Composite('btokCVCVal', _impl_val, _ref_val, group='tok')).faultable = True
+reg(Composite('btok.CVCVal', _impl_val, _ref_val, group='tok')).faultable = True
 
 def _impl_val2(lib, c, A, fill):
     """the chain step of the header: cvca = content of certa (parsed without verification), then btokCVCVal2"""
@@ -162,22 +162,22 @@ def _ref_val2(c):
     if st != 'OK':
         return _err(st)
     return {'ret': 0, 'cvc': cvc_bytes(full)} if c.get('want', 1) else {'ret': 0}
-reg(Composite('btokCVCVal2', _impl_val2, _ref_val2, group='tok')).faultable = True
+reg(Composite('btok.CVCVal2', _impl_val2, _ref_val2, group='tok')).faultable = True
 
 def _impl_check(lib, c, A, fill):
     return {'ret': lib.err('btokCVCCheck', A.buf(cvc_bytes(content(c))))}
-reg(Composite('btokCVCCheck', _impl_check, lambda c: {'ret': 0 if T.cvc_check(content(c)) is None else NZ}, group='tok')).faultable = True
+reg(Composite('btok.CVCCheck', _impl_check, lambda c: {'ret': 0 if T.cvc_check(content(c)) is None else NZ}, group='tok')).faultable = True
 
 def _impl_check2(lib, c, A, fill):
     return {'ret': lib.err('btokCVCCheck2', A.buf(cvc_bytes(content(c))), A.buf(cvc_bytes(content(c, 'a_'))))}
-reg(Composite('btokCVCCheck2', _impl_check2, lambda c: {'ret': 0 if T.cvc_check2(content(c), content(c, 'a_')) is None else NZ}, group='tok')).faultable = True
+reg(Composite('btok.CVCCheck2', _impl_check2, lambda c: {'ret': 0 if T.cvc_check2(content(c), content(c, 'a_')) is None else NZ}, group='tok')).faultable = True
 
 def _impl_len(lib, c, A, fill):
     return {'ret': lib.sz('btokCVCLen', A.buf(c['der']), len(c['der']))}
 def _ref_len(c):
     r = D.der_dec2(c['der'], 0x7F21)
     return {'ret': vf.SIZE_MAX if r is None else r[1]}
-reg(Composite('btokCVCLen', _impl_len, _ref_len, group='tok', ret='size'))
+reg(Composite('btok.CVCLen', _impl_len, _ref_len, group='tok', ret='size'))
 
 def _impl_match(lib, c, A, fill):
     return {'ret': lib.err('btokCVCMatch', A.buf(c['cert']), len(c['cert']), A.buf(c['privkey']), len(c['privkey']))}
@@ -186,7 +186,7 @@ def _ref_match(c):
     if st != 'OK':
         return _err(st)
     return {'ret': 0 if T.keypair_is_valid(c['privkey'], full['pubkey']) else NZ}
-reg(Composite('btokCVCMatch', _impl_match, _ref_match, group='tok', secrets=('privkey',))).faultable = True
+reg(Composite('btok.CVCMatch', _impl_match, _ref_match, group='tok', secrets=('privkey',))).faultable = True
 
 # ------------------------------------------------------------------ secure messaging
 def sm_state(lib, A, key, incs, fill=0x00):
@@ -465,30 +465,30 @@ def gen_cases(tier):
                 if not q and kl in (48, 64) and hat not in ('none', 'both'):
                     continue
                 c = mk(name(a, 1), name(h, 2), b'', D_FROM, D_UNTIL, *HATS[hat])
-                out.append(('btokCVCWrap', dict(c, privkey=d)))
+                out.append(('btok.CVCWrap', dict(c, privkey=d)))
                 cert, full = T.cvc_wrap(c, d)
-                out.append(('btokCVCUnwrap', dict(cert=cert, mode='none')))
+                out.append(('btok.CVCUnwrap', dict(cert=cert, mode='none')))
                 if (a + h) % 2 == 0:
-                    out.append(('btokCVCUnwrap', dict(cert=cert, mode='self')))
+                    out.append(('btok.CVCUnwrap', dict(cert=cert, mode='self')))
                 else:
-                    out.append(('btokCVCUnwrap', dict(cert=cert, mode='key', pubkey=full['pubkey'])))
+                    out.append(('btok.CVCUnwrap', dict(cert=cert, mode='key', pubkey=full['pubkey'])))
     d = privkey(32)
     for dn, (f, u, ok) in DATE_CLASSES.items():
-        out.append(('btokCVCWrap', dict(mk(b'BYCA0000', b'BYCA1000', b'', f, u), privkey=d, tag='k32/a8/h8/%s/none' % dn)))
-        out.append(('btokCVCCheck', dict(mk(b'BYCA0000', b'BYCA1000', T.pubkey_of(d), f, u), tag='k32/a8/h8/%s/none' % dn)))
+        out.append(('btok.CVCWrap', dict(mk(b'BYCA0000', b'BYCA1000', b'', f, u), privkey=d, tag='k32/a8/h8/%s/none' % dn)))
+        out.append(('btok.CVCCheck', dict(mk(b'BYCA0000', b'BYCA1000', T.pubkey_of(d), f, u), tag='k32/a8/h8/%s/none' % dn)))
     for a, h in ((7, 8), (8, 7), (13, 8), (8, 13), (0, 8), (12, 13)):
-        out.append(('btokCVCWrap', dict(mk(name(a), name(h), b'', D_FROM, D_UNTIL), privkey=d)))
-        out.append(('btokCVCCheck', mk(name(a), name(h), T.pubkey_of(d), D_FROM, D_UNTIL)))
+        out.append(('btok.CVCWrap', dict(mk(name(a), name(h), b'', D_FROM, D_UNTIL), privkey=d)))
+        out.append(('btok.CVCCheck', mk(name(a), name(h), T.pubkey_of(d), D_FROM, D_UNTIL)))
         # encoded certificates with a name outside SIZE(8..12): a format error
         c = mk(name(a), name(h), T.pubkey_of(d), D_FROM, D_UNTIL)
         cert = T.cvc_enc(c, T.tok_sign(T.cvc_body(c), d))
-        out.append(('btokCVCUnwrap', dict(cert=cert, mode='none')))
-        out.append(('btokCVCUnwrap', dict(cert=cert, mode='self')))
-    out.append(('btokCVCWrap', dict(mk(b'BYCA000\x7f', b'BYCA1000', b'', D_FROM, D_UNTIL), privkey=d)))
-    out.append(('btokCVCWrap', dict(mk(b'BYCA0000', b'BYCA10*0', b'', D_FROM, D_UNTIL), privkey=d)))
+        out.append(('btok.CVCUnwrap', dict(cert=cert, mode='none')))
+        out.append(('btok.CVCUnwrap', dict(cert=cert, mode='self')))
+    out.append(('btok.CVCWrap', dict(mk(b'BYCA000\x7f', b'BYCA1000', b'', D_FROM, D_UNTIL), privkey=d)))
+    out.append(('btok.CVCWrap', dict(mk(b'BYCA0000', b'BYCA10*0', b'', D_FROM, D_UNTIL), privkey=d)))
     bad = bytearray(T.pubkey_of(d)); bad[40] ^= 1
-    out.append(('btokCVCCheck', mk(b'BYCA0000', b'BYCA1000', bytes(bad), D_FROM, D_UNTIL)))
-    out.append(('btokCVCWrap', dict(mk(b'BYCA0000', b'BYCA1000', bytes(bad), D_FROM, D_UNTIL), privkey=d)))
+    out.append(('btok.CVCCheck', mk(b'BYCA0000', b'BYCA1000', bytes(bad), D_FROM, D_UNTIL)))
+    out.append(('btok.CVCWrap', dict(mk(b'BYCA0000', b'BYCA1000', bytes(bad), D_FROM, D_UNTIL), privkey=d)))
     # --- chains: Iss / Val / Val2 / Check2 / Match / Len
     for kls in ([(32, 24, 48), (64, 32)] if q else [(24, 32, 48, 64), (64, 48, 32, 24), (32, 32, 32), (48, 24), (24, 64)]):
         ch = chain(kls)
@@ -496,25 +496,25 @@ def gen_cases(tier):
             pd, pcert, pfull = ch[i - 1]
             dd, cert, full = ch[i]
             cc = {k: full[k] for k in FIELDS}
-            out.append(('btokCVCIss', dict(cc, certa=pcert, privkeya=pd)))
-            out.append(('btokCVCIss', dict(cc, certa=pcert, privkeya=privkey(len(pd), 9))))                  # not the issuer's key
-            out.append(('btokCVCIss', dict(cc, authority=name(9, 7), certa=pcert, privkeya=pd)))              # name mismatch
-            out.append(('btokCVCIss', dict(cc, from_=date(2021, 1, 1), certa=pcert, privkeya=pd)))            # before the issuer's period
+            out.append(('btok.CVCIss', dict(cc, certa=pcert, privkeya=pd)))
+            out.append(('btok.CVCIss', dict(cc, certa=pcert, privkeya=privkey(len(pd), 9))))                  # not the issuer's key
+            out.append(('btok.CVCIss', dict(cc, authority=name(9, 7), certa=pcert, privkeya=pd)))              # name mismatch
+            out.append(('btok.CVCIss', dict(cc, from_=date(2021, 1, 1), certa=pcert, privkeya=pd)))            # before the issuer's period
             for dt in (None, full['from_'], full['until'], date(2022, 12, 31), date(2031, 1, 1), date(2025, 2, 29)):
-                out.append(('btokCVCVal', dict(cert=cert, certa=pcert, date=dt)))
-                out.append(('btokCVCVal2', dict(cert=cert, certa=pcert, date=dt, want=1 if dt != full['until'] else 0)))
-            out.append(('btokCVCVal', dict(cert=cert, certa=ch[0][1] if i > 1 else cert, date=None)))         # wrong issuer
-            out.append(('btokCVCVal', dict(cert=_flip(cert, len(cert) - 1), certa=pcert, date=None)))          # broken signature
-            out.append(('btokCVCVal', dict(cert=_flip(cert, 30), certa=pcert, date=None)))                     # broken body
-            out.append(('btokCVCCheck2', dict(cc, **{'a_' + k: pfull[k] for k in FIELDS})))
-            out.append(('btokCVCCheck2', dict(cc, **{'a_' + k: ch[0][2][k] for k in FIELDS})))
-            out.append(('btokCVCMatch', dict(cert=cert, privkey=dd)))
-            out.append(('btokCVCMatch', dict(cert=cert, privkey=pd)))
-            out.append(('btokCVCLen', dict(der=cert + b'\x00\x01')))
-            out.append(('btokCVCLen', dict(der=cert[:-1])))
-            out.append(('btokCVCUnwrap', dict(cert=cert + b'\0', mode='none')))
-            out.append(('btokCVCUnwrap', dict(cert=cert, mode='key', pubkey=pfull['pubkey'])))
-            out.append(('btokCVCUnwrap', dict(cert=cert, mode='key', pubkey=full['pubkey'])))
+                out.append(('btok.CVCVal', dict(cert=cert, certa=pcert, date=dt)))
+                out.append(('btok.CVCVal2', dict(cert=cert, certa=pcert, date=dt, want=1 if dt != full['until'] else 0)))
+            out.append(('btok.CVCVal', dict(cert=cert, certa=ch[0][1] if i > 1 else cert, date=None)))         # wrong issuer
+            out.append(('btok.CVCVal', dict(cert=_flip(cert, len(cert) - 1), certa=pcert, date=None)))          # broken signature
+            out.append(('btok.CVCVal', dict(cert=_flip(cert, 30), certa=pcert, date=None)))                     # broken body
+            out.append(('btok.CVCCheck2', dict(cc, **{'a_' + k: pfull[k] for k in FIELDS})))
+            out.append(('btok.CVCCheck2', dict(cc, **{'a_' + k: ch[0][2][k] for k in FIELDS})))
+            out.append(('btok.CVCMatch', dict(cert=cert, privkey=dd)))
+            out.append(('btok.CVCMatch', dict(cert=cert, privkey=pd)))
+            out.append(('btok.CVCLen', dict(der=cert + b'\x00\x01')))
+            out.append(('btok.CVCLen', dict(der=cert[:-1])))
+            out.append(('btok.CVCUnwrap', dict(cert=cert + b'\0', mode='none')))
+            out.append(('btok.CVCUnwrap', dict(cert=cert, mode='key', pubkey=pfull['pubkey'])))
+            out.append(('btok.CVCUnwrap', dict(cert=cert, mode='key', pubkey=full['pubkey'])))
     # --- secure messaging
     for cmd in cmd_menu('quick') if q else cmd_menu(tier)[::2]:
         cla, ins, p1, p2, cdf, le = cmd
@@ -594,8 +594,8 @@ def _nonce(case, res, privname):
     oid = bign.oid_to_der(oid)
     k = bign.bign96_gen_k(oid, d, h) if l == 96 else bign.gen_k(l, oid, d, h)
     return [('signature nonce k', k.to_bytes(len(d), 'little'))]
-cat.CAT['btokCVCWrap'].derived = lambda case, res: _nonce(case, res, 'privkey')
-cat.CAT['btokCVCIss'].derived = lambda case, res: _nonce(case, res, 'privkeya')
+cat.CAT['btok.CVCWrap'].derived = lambda case, res: _nonce(case, res, 'privkey')
+cat.CAT['btok.CVCIss'].derived = lambda case, res: _nonce(case, res, 'privkeya')
 
 def _kdf_wrap(kind):
     def derived(case, res):
@@ -631,20 +631,20 @@ def sweep_cases(tier):
     ch = chain((32, 32))
     for n in (0, 1, 23, 25, 31, 33, 47, 49, 63, 65, 96, 128):
         k = vf.filler('sweepkey', n)
-        out.append(('btokCVCWrap', dict(c, privkey=k)))
-        out.append(('btokCVCMatch', dict(cert=ch[1][1], privkey=k)))
-        out.append(('btokCVCIss', dict({f: ch[1][2][f] for f in FIELDS}, certa=ch[0][1], privkeya=k)))
+        out.append(('btok.CVCWrap', dict(c, privkey=k)))
+        out.append(('btok.CVCMatch', dict(cert=ch[1][1], privkey=k)))
+        out.append(('btok.CVCIss', dict({f: ch[1][2][f] for f in FIELDS}, certa=ch[0][1], privkeya=k)))
         out.append(('bpkiPrivkeyWrap', dict(key=k, pwd=PWDS[3], salt=SALT, iter=10000)))
         out.append(('bpkiCSRRewrap', dict(csr=T.CSR_BEE2EVP, privkey=k)))
     for n in (0, 1, 47, 49, 63, 65, 95, 97, 127, 129):
-        out.append(('btokCVCUnwrap', dict(cert=ch[1][1], mode='key', pubkey=vf.filler('sweeppub', n))))
+        out.append(('btok.CVCUnwrap', dict(cert=ch[1][1], mode='key', pubkey=vf.filler('sweeppub', n))))
     for n in (0, 1, 16, 18, 24, 26, 32, 34):
         out.append(('bpkiShareWrap', dict(key=b'\x01' + bytes(max(n - 1, 0)) if n else b'', pwd=PWDS[3], salt=SALT, iter=10000)))
     for it in (0, 1, 9999):
         out.append(('bpkiPrivkeyWrap', dict(key=d, pwd=PWDS[3], salt=SALT, iter=it)))
         out.append(('bpkiShareWrap', dict(key=b'\x01' + bytes(16), pwd=PWDS[3], salt=SALT, iter=it)))
     for n in (0, 1, 2, 3):
-        out.append(('btokCVCLen', dict(der=ch[1][1][:n])))
+        out.append(('btok.CVCLen', dict(der=ch[1][1][:n])))
     for cla in (0x04, 0x0C, 0x84, 0xFF):
         out.append(('btok.SMCmd', dict(key=SMKEY, cla=cla, ins=1, p1=2, p2=3, cdf=b'abcd', rdf_len=5, ctr_s=1, ctr_r=1)))
     for cs, cr in ((0, 0), (2, 2), (1, 0), (1, 2), (3, 4)):
